@@ -22,7 +22,7 @@ import time
 ROOT = os.path.dirname(os.path.dirname(os.path.abspath(__file__)))
 sys.path.insert(0, ROOT)
 
-from harness import tlcrun, replay, props, findings  # noqa: E402
+from harness import tlcrun, replay, props, findings, tv, gen  # noqa: E402
 
 WORK = os.path.join(ROOT, '.work')
 EVID = os.environ.get('VERIF_EVIDENCE_DIR') or os.path.join(ROOT, 'evidence')   # the override is for tools/seedcheck.sh only
@@ -165,11 +165,145 @@ def replay_under_hashseeds(meta, traces, wd, seed, rec, out):
     return divs, results[0]['n'] + results[1]['n'], results[0]['steps'] + results[1]['steps']
 
 
+def _gen_job(args):
+    profile, flavour, seed, length, max_closed, chaos, chunked = args
+    t = gen.trace(profile, flavour, seed, length, max_closed=max_closed, chaos=chaos, chunk_seed=(seed * 7919 + 1) if chunked else None)
+    return t
+
+
+def record_traces(pid, tier, seed):
+    """Random executions of the real code (current tree), recorded by harness/gen.py in worker processes."""
+    import multiprocessing
+    jobs = []
+    for e in props.TV.get(pid, []):
+        n = e['n'][tier]
+        for i in range(n):
+            mc = e.get('max_closed', [None])
+            jobs.append((e['profile'], e['flavour'], seed * 1000003 + i, e['length'][tier], mc[i % len(mc)], e.get('chaos'),
+                         bool(e.get('chunked'))))
+    if not jobs:
+        return []
+    ctx = multiprocessing.get_context('fork')
+    with ctx.Pool(min(12, len(jobs))) as pool:
+        return pool.map(_gen_job, jobs, chunksize=max(1, len(jobs) // 48))
+
+
+def record_under_hashseed(pid, tier, seed, hashseed):
+    """C28: the same random programs recorded in a fresh interpreter with another PYTHONHASHSEED."""
+    import subprocess
+    code = ('import sys, json; sys.path.insert(0, %r); from harness import check; '
+            'ts = check.record_traces(%r, %r, %d); json.dump(ts, sys.stdout)' % (ROOT, pid, tier, seed))
+    p = subprocess.run([sys.executable, '-c', code], cwd=ROOT, stdout=subprocess.PIPE, stderr=subprocess.PIPE, text=True,
+                       env=dict(os.environ, PYTHONHASHSEED=str(hashseed)))
+    if p.returncode != 0:
+        raise RuntimeError('recording under PYTHONHASHSEED=%s failed: %s' % (hashseed, p.stderr[-800:]))
+    return json.loads(p.stdout)
+
+
+def run_tv(pid, tier, seed, out):
+    """Code -> spec: record random executions, let TLC judge them against spec/Trace.tla.  Returns divergence records in
+    the same shape the spec -> code replay produces (plus kind 'formula-on-trace' for a property formula that failed on a
+    state of a recorded execution)."""
+    if not props.TV.get(pid):
+        return []
+    t0 = time.time()
+    try:
+        traces = record_traces(pid, tier, seed)
+        if any(e.get('hashseeds') for e in props.TV[pid]):
+            hs = 1 + (seed * 2654435761 + 977) % 4294967290
+            other = record_under_hashseed(pid, tier, seed, hs)
+            a = json.dumps([[t['id'], t['steps']] for t in traces], sort_keys=True)
+            b = json.dumps([[t['id'], t['steps']] for t in other], sort_keys=True)
+            out['tv']['hashseed_runs'] = [os.environ.get('PYTHONHASHSEED', 'random'), str(hs)]
+            out['tv']['hashseed_equal'] = (a == b)
+            if a != b:
+                k = next((i for i, (x, y) in enumerate(zip(traces, other)) if x['steps'] != y['steps']), 0)
+                j = next((i for i, (x, y) in enumerate(zip(traces[k]['steps'], other[k]['steps'])) if x != y), 0)
+                out['tv']['divs'].append({'kind': 'diverged', 'phase': 'step', 'step': j + 1, 'fields': ['r', 'o', 'e'], 'a': 'call', 'x': '?',
+                                          'call': None, 'dev': [], 'dev_before': [], 'scenario': 'trace ' + traces[k]['id'],
+                                          'what': 'the same random program recorded under two PYTHONHASHSEED values differs from step %d on' % (j + 1),
+                                          'meta': traces[k]['meta'], 'steps': None, 'tv_trace': {'id': traces[k]['id'], 'meta': traces[k]['meta'],
+                                                                                           'steps': traces[k]['steps'][:j + 1]}})
+    except Exception as e:
+        out['machinery'].append('trace recording failed: %r' % (e,))
+        return []
+    rec_s = time.time() - t0
+    wd = os.path.join(WORK, '%s-%s-%d-tv' % (pid, tier, os.getpid()))
+    res, stats = tv.validate(traces, wd)
+    shutil.rmtree(wd, ignore_errors=True)
+    tvo = out['tv']
+    tvo.update({'traces': len(traces), 'steps': sum(len(t['steps']) for t in traces), 'record_wall_s': round(rec_s, 1),
+                'tlc_wall_s': stats['tlc_wall_s'], 'tlc_runs': stats['tlc_runs'], 'states': stats['distinct'],
+                'transitions': stats['generated'], 'cmd': stats['cmd']})
+    if stats['errors']:
+        out['machinery'].append('trace validation: TLC failed: ' + stats['errors'][0][:1500])
+        return []
+    verdicts = collections.Counter()
+    divs = []
+    own = set(props.FORMULAS.get(pid, []))
+    steps_validated = 0
+    for t, r in zip(traces, res):
+        verdicts[r['k']] += 1
+        steps_validated += r['at'] if r['k'] in ('rejected', 'cut') else len(t['steps'])
+        for s_ in t['steps'][: (r['at'] if r['k'] in ('rejected', 'cut') else len(t['steps']))]:
+            k = step_key(s_)
+            if k not in out['pairs']:
+                out['pairs'][k] = nontrivial(s_)
+        if r['k'] == 'missing':
+            out['machinery'].append('trace validation: no verdict for trace %s' % t['id'])
+            continue
+        if r['k'] == 'rejected':
+            st = t['steps'][r['at'] - 1]
+            obs = st['p']
+            fields = driver_fields(r['pred'], obs, r['fields'])
+            pend_types = []
+            d = {'kind': 'diverged', 'phase': 'step', 'step': r['at'], 'fields': fields,
+                 'call': st.get('c', st.get('fs', st.get('k'))), 'a': st['a'], 'x': st['x'],
+                 'expected': {k.split('.')[0]: r['pred'].get(k.split('.')[0]) for k in fields},
+                 'observed': {k.split('.')[0]: obs.get(k.split('.')[0]) for k in fields},
+                 'dev': r.get('dev') or [], 'dev_before': r.get('devb') or [], 'scenario': 'trace ' + t['id'],
+                 'meta': t['meta'], 'steps': None, 'pend_types': pend_types,
+                 'tv_trace': {'id': t['id'], 'meta': t['meta'], 'steps': [strip_obs(x) for x in t['steps'][:r['at']]]}}
+            divs.append(d)
+        for pf in r['propfails']:
+            tvo['propfails'][pf['formula']] += 1
+            if pf['formula'] in own:
+                st = t['steps'][pf['at'] - 1] if pf['at'] >= 1 else {}
+                divs.append({'kind': 'formula-on-trace', 'what': 'formula %s is false in the state after step %d of recorded trace %s'
+                             % (pf['formula'], pf['at'], t['id']), 'scenario': 'trace ' + t['id'], 'fields': [], 'call': st.get('c', st.get('fs', st.get('k'))),
+                             'a': st.get('a'), 'x': st.get('x'), 'dev': pf.get('dev') or [], 'dev_before': [], 'meta': t['meta'], 'steps': None,
+                             'tv_trace': {'id': t['id'], 'meta': t['meta'], 'steps': [strip_obs(x) for x in t['steps'][:pf['at']]]}})
+    tvo['verdicts'] = dict(verdicts)
+    tvo['steps_validated'] = steps_validated
+    if traces and not tvo.get('sample'):
+        rnd = random.Random(seed)
+        t = traces[rnd.randrange(len(traces))]
+        tvo['sample'] = {'trace': t['id'], 'first_steps': [dict(strip_obs(x), observed={k: x['p'][k] for k in ('r', 'o', 'e')}) for x in t['steps'][:6]]}
+    out['behaviours'] += len(traces)
+    out['steps'] += steps_validated
+    return divs
+
+
+def strip_obs(s):
+    return {k: v for k, v in s.items() if k != 'p'}
+
+
+def driver_fields(pred, obs, fields):
+    """TLC names the top-level fields that differ; for the stream table name the attributes (the lenses use them)."""
+    from harness import driver
+    try:
+        fine = driver.diff(pred, obs)
+        return fine or list(fields)
+    except Exception:
+        return list(fields)
+
+
 def write_replay(pid, n, d):
     os.makedirs(REPLAYS, exist_ok=True)
     p = os.path.join(REPLAYS, '%s-%d-%d.json' % (pid, os.getpid(), n))
     json.dump({'property': pid, 'scenario': d.get('scenario'), 'meta': d.get('meta'), 'steps': d.get('steps'),
-               'divergence': {k: d[k] for k in d if k not in ('meta', 'steps')}}, open(p, 'w'), indent=1)
+               'tv_trace': d.get('tv_trace'),
+               'divergence': {k: d[k] for k in d if k not in ('meta', 'steps', 'tv_trace')}}, open(p, 'w'), indent=1)
     return p
 
 
@@ -178,7 +312,8 @@ def do_check(pid, tier, seed):
     spec = props.PROPS[pid]
     catalogue = replay.load_catalogue()
     out = {'scenarios': [], 'machinery': [], 'formula_violations': [], 'pairs': {}, 'ops': collections.Counter(),
-           'dev_seen': collections.Counter(), 'behaviours': 0, 'steps': 0, 'samples': []}
+           'dev_seen': collections.Counter(), 'behaviours': 0, 'steps': 0, 'samples': [],
+           'tv': {'divs': [], 'propfails': collections.Counter()}}
     violations = []
     known_lines = []
     notes = []
@@ -194,19 +329,36 @@ def do_check(pid, tier, seed):
         elif status == 'harness':
             out['machinery'].append('finding %s: %s' % (kf['id'], detail))
 
-    # (2)+(3) scenario models
+    # every recorded finding (of any property) is re-executed: on a deviation branch whose finding still reproduces exactly,
+    # the as-built model is still the right prediction and steps on/after it are judged like any other
+    alive = set()
+    for kf in findings.load().get('findings', []):
+        try:
+            if findings.reexecute(kf, catalogue)[0] == 'still':
+                alive.add(kf['deviation'])
+        except Exception:
+            pass
+
+    # (2)+(3) scenario models: spec -> code
     all_divs = []
     for sc in spec['scenarios']:
         if tier not in sc['depth']:
             continue
         all_divs += run_scenario(pid, sc, tier, seed, catalogue, out)
+    n_model_behaviours = out['behaviours']
+    # (4) recorded random executions: code -> spec
+    all_divs += run_tv(pid, tier, seed, out)
+    all_divs += out['tv'].pop('divs')
     foreign = collections.Counter()
     tainted = collections.Counter()
     for d in all_divs:
         if d['kind'] == 'harness':
             out['machinery'].append('replay harness failure in %s: %s' % (d['scenario'], d['why'][-800:]))
             continue
-        if props.tainted(d):
+        if d['kind'] == 'formula-on-trace':
+            violations.append(d)
+            continue
+        if props.tainted(d, alive):
             # the model reached this step through a marked deviation branch (a known finding): what it predicts there is
             # the recorded defective behaviour, and code that behaves differently there is not judged by this check
             tainted[','.join(sorted(d['dev']))] += 1
@@ -240,22 +392,29 @@ def do_check(pid, tier, seed):
                 print('  %s' % v['what'][:600])
 
     nontriv = sum(1 for v in out['pairs'].values() if v)
-    states = sum(s['states'] for s in out['scenarios'])
-    trans = sum(s['transitions'] for s in out['scenarios'])
+    states = sum(s['states'] for s in out['scenarios']) + out['tv'].get('states', 0)
+    trans = sum(s['transitions'] for s in out['scenarios']) + out['tv'].get('transitions', 0)
     ev = {
         'property_id': pid, 'tier': tier, 'seed': seed, 'level': spec.get('level', 'model_checking'),
         'coverage': {
             'states': states, 'transitions': trans,
             'traces_validated_against_impl': out['behaviours'],
+            'model_behaviours_replayed_into_code': n_model_behaviours,
+            'recorded_traces_validated_by_tlc': out['tv'].get('traces', 0),
+            'trace_validation': dict(out['tv'], propfails=dict(out['tv']['propfails'])),
+            'deviation_branches_still_reproducing': sorted(alive),
             'steps_replayed': out['steps'],
             'evaluations': out['behaviours'],
             'distinct_nontrivial': nontriv,
             'distinct_step_prediction_pairs': len(out['pairs']),
-            'rule': 'TLC enumerates every distinct (model state, incoming step) pair of each scenario model up to the depth bound '
+            'rule': 'Two directions. (a) spec -> code: TLC enumerates every distinct (model state, incoming step) pair of each scenario model up to the depth bound '
                     'and emits one witness behaviour per pair; behaviours that are prefixes of others are dropped; each remaining '
                     'behaviour is replayed step by step into real H2Connection objects. distinct_nontrivial counts distinct '
                     '(step, predicted observation) pairs whose prediction is a success or contains frames or events '
-                    '(i.e. not a bare refusal).',
+                    '(i.e. not a bare refusal). (b) code -> spec: seeded random programs (harness/gen.py) are executed on real H2Connection '
+                    'objects and recorded; TLC validates every recorded step against spec/Trace.tla (observation equal to what the '
+                    'specification allows, all property formulas evaluated in every state); their (step, observation) pairs are counted '
+                    'in the same way.',
             'samples': out['samples'] or [{'note': 'no behaviour generated'}],
             'scenarios': out['scenarios'],
             'outcome_histogram': {'%s/%s/%s' % k: v for k, v in sorted(out['ops'].items(), key=lambda kv: -kv[1])[:60]},
@@ -265,7 +424,8 @@ def do_check(pid, tier, seed):
             'notes': notes,
             'known_findings_seen': known_lines,
             'formula_violations': out['formula_violations'],
-            'checker_cmd': 'tlc -workers 1 <scenario>.tla (cfg generated by harness/check.py), then harness/replay.py',
+            'checker_cmd': 'tlc -workers 1 <scenario>.tla (cfg generated by harness/check.py), then harness/replay.py; '
+                           'TRACE_FILE=<recorded traces> tlc -workers 1 MC_TV_*.tla (generated by harness/tv.py, EXTENDS Trace)',
             'trusted_base': ['TLC 2026.09.04 / tla2tools 1.8.0', 'CommunityModules Json', 'harness/wire.py (independent frame codec)',
                              'harness/absn.py (abstraction, no rules)', 'hpack 4.2.0 (third party) for block <-> header list'],
             'exhaustive': False,
@@ -289,6 +449,32 @@ def do_check(pid, tier, seed):
 def do_replay(path):
     rec = json.load(open(path))
     catalogue = replay.load_catalogue()
+    if rec.get('tv_trace'):
+        # a recorded execution: run the same inputs on the current tree, record, and let TLC judge the recording
+        from harness import driver
+        tr = rec['tv_trace']
+        sess = driver.Session(dict(tr['meta'], max_closed=None if tr['meta'].get('max_closed') == 65536 else tr['meta'].get('max_closed')))
+        steps = []
+        for s_ in tr['steps']:
+            obs = sess.step(replay.resolve(s_, catalogue))
+            steps.append(dict(s_, p=obs))
+        wd = os.path.join(WORK, 'replay-%d-tv' % os.getpid())
+        res, stats = tv.validate([{'id': tr['id'], 'meta': tr['meta'], 'steps': steps}], wd)
+        shutil.rmtree(wd, ignore_errors=True)
+        r = res[0]
+        if stats['errors']:
+            print('replay: TLC failed: ' + stats['errors'][0][:2000])
+            return 2
+        print('replay: trace %s: verdict %s at step %s fields %s; formulas failed: %s' % (
+            tr['id'], r['k'], r['at'], r['fields'], sorted({f['formula'] for f in r['propfails']})))
+        if r['k'] == 'rejected':
+            st = steps[r['at'] - 1]
+            print('  step: ' + json.dumps(strip_obs(st))[:600])
+            for f in r['fields']:
+                top = f.split('.')[0]
+                print('  %s\n    specification allows: %s\n    code did:             %s' % (
+                    f, json.dumps(r['pred'].get(top))[:1500], json.dumps(st['p'].get(top))[:1500]))
+        return 1 if (r['k'] == 'rejected' or r['propfails']) else 0
     if rec.get('meta') is None:
         print(json.dumps(rec.get('divergence'), indent=1)[:4000])
         return 0
